@@ -34,7 +34,7 @@ ACC = ['accel_x', 'accel_y', 'accel_z']
 
 def case_strategy():
     return st.fixed_dictionaries({
-        'lat0': st.sampled_from([50.0, -33.0, 2.0, -2.0, 80.0, -80.0, 20.0, -60.0]),
+        'lat0': st.sampled_from([50.0, -33.0, 2.0, -2.0, 80.0, -80.0, 20.0, -60.0, 84.8, -84.8]),        # the stated domain ends at 85
         'lon0': st.sampled_from([10.0, -120.0, 179.0, -179.0, 0.5]),
         'alt0': st.sampled_from([0.0, 500.0, 10000.0]),
         'speed': st.sampled_from([0.5, 5.0, 30.0, 100.0, 250.0]),
